@@ -395,4 +395,205 @@ theorem isTitle_not_ext (h : Str) (ht : isTitle h = true) : extKind h = none := 
     unfold contentEndKey at this
     simp [ht] at this
 
+/-! ### stage 4 (link, guid / id): table facts, frame and inversion lemmas -/
+
+/-- table facts about the stage-4 kinds: they have handlers, are not structural, not date elements, not text constructs, not stage-3 kinds -/
+theorem lg_names_facts :
+    Gen.Mixin.stage4L.all (fun e => hasStart e.1 && hasEnd e.1 && (dateKey e.1).isNone && (contentEndKey e.1).isNone && (extKind e.1).isNone &&
+      !(e.1 == S "rss") && !(e.1 == S "channel") && !(e.1 == S "feed") && !(e.1 == S "item") && !(e.1 == S "entry")) = true := by decide +kernel
+
+theorem lgKind_facts (h kind : Str) (hk : lgKind h = some kind) :
+    hasStart h = true ∧ hasEnd h = true ∧ dateKey h = none ∧ contentEndKey h = none ∧ extKind h = none ∧
+    (h == S "rss") = false ∧ (h == S "channel") = false ∧ (h == S "feed") = false ∧ (h == S "item") = false ∧ (h == S "entry") = false := by
+  unfold lgKind at hk
+  cases hf : Gen.Mixin.stage4L.find? (·.1 == h) with
+  | none => rw [hf] at hk; cases hk
+  | some e =>
+    have hm := List.mem_of_find?_eq_some hf
+    have he := List.find?_some hf
+    have hall := List.all_eq_true.mp lg_names_facts e hm
+    have : e.1 = h := by simpa using he
+    rw [this] at hall
+    simp only [Bool.and_eq_true, Bool.not_eq_true', Option.isNone_iff_eq_none] at hall
+    obtain ⟨⟨⟨⟨⟨⟨⟨⟨⟨a, b⟩, c⟩, d⟩, x⟩, e1⟩, e2⟩, e3⟩, e4⟩, e5⟩ := hall
+    exact ⟨a, b, c, d, x, e1, e2, e3, e4, e5⟩
+
+theorem lgKind_none_of_noStart (h : Str) (hno : hasStart h = false) : lgKind h = none := by
+  cases hk : lgKind h with
+  | none => rfl
+  | some k => have := (lgKind_facts h k hk).1; rw [hno] at this; cases this
+
+theorem lgKind_none_of_noEnd (h : Str) (hno : hasEnd h = false) : lgKind h = none := by
+  cases hk : lgKind h with
+  | none => rfl
+  | some k => have := (lgKind_facts h k hk).2.1; rw [hno] at this; cases this
+
+theorem dateKey_not_lg (h : Str) (kp : Str × Str) (hk : dateKey h = some kp) : lgKind h = none := by
+  cases hx : lgKind h with
+  | none => rfl
+  | some kind => have := (lgKind_facts h kind hx).2.2.1; rw [hk] at this; cases this
+
+theorem isTitle_not_lg (h : Str) (ht : isTitle h = true) : lgKind h = none := by
+  cases hx : lgKind h with
+  | none => rfl
+  | some kind =>
+    have := (lgKind_facts h kind hx).2.2.2.1
+    unfold contentEndKey at this
+    simp [ht] at this
+
+theorem contentKey_not_lg (h : Str) (k : Str × Str) (hk : contentKey h = some k) : lgKind h = none := by
+  cases hx : lgKind h with
+  | none => rfl
+  | some kind =>
+    have := (lgKind_facts h kind hx).2.2.2.1
+    unfold contentEndKey at this
+    split at this
+    · cases this
+    · rw [hk] at this; cases this
+
+theorem lg_structural : lgKind (S "rss") = none ∧ lgKind (S "channel") = none ∧ lgKind (S "feed") = none ∧
+    lgKind (S "item") = none ∧ lgKind (S "entry") = none := by decide +kernel
+
+/-- what the stage-4 handlers (and `pop`, `_save`) leave untouched: everything but the feed dict, the dict of the entry being filled, and
+their own two flags -/
+def Frame4 (c c' : Core) : Prop :=
+  c'.inentry = c.inentry ∧ c'.version = c.version ∧ c'.nsMap = c.nsMap ∧ c'.nsInUse = c.nsInUse ∧ c'.infeed = c.infeed ∧
+  c'.depth = c.depth ∧ c'.base = c.base ∧ c'.incontent = c.incontent ∧ c'.cp = c.cp ∧
+  c'.entries.drop 1 = c.entries.drop 1 ∧ c'.entries.length = c.entries.length ∧ (c.inentry = false → c'.entries = c.entries)
+
+theorem Frame4.refl (c : Core) : Frame4 c c := ⟨rfl, rfl, rfl, rfl, rfl, rfl, rfl, rfl, rfl, rfl, rfl, fun _ => rfl⟩
+
+theorem Frame4.trans {a b c : Core} (h1 : Frame4 a b) (h2 : Frame4 b c) : Frame4 a c :=
+  ⟨h2.1.trans h1.1, h2.2.1.trans h1.2.1, h2.2.2.1.trans h1.2.2.1, h2.2.2.2.1.trans h1.2.2.2.1, h2.2.2.2.2.1.trans h1.2.2.2.2.1,
+   h2.2.2.2.2.2.1.trans h1.2.2.2.2.2.1, h2.2.2.2.2.2.2.1.trans h1.2.2.2.2.2.2.1, h2.2.2.2.2.2.2.2.1.trans h1.2.2.2.2.2.2.2.1,
+   h2.2.2.2.2.2.2.2.2.1.trans h1.2.2.2.2.2.2.2.2.1, h2.2.2.2.2.2.2.2.2.2.1.trans h1.2.2.2.2.2.2.2.2.2.1,
+   h2.2.2.2.2.2.2.2.2.2.2.1.trans h1.2.2.2.2.2.2.2.2.2.2.1,
+   fun hi => (h2.2.2.2.2.2.2.2.2.2.2.2 (h1.1.trans hi)).trans (h1.2.2.2.2.2.2.2.2.2.2.2 hi)⟩
+
+theorem Frame4.nonempty {c c' : Core} (h : Frame4 c c') (hne : c.entries ≠ []) : c'.entries ≠ [] := by
+  intro h0
+  have := h.2.2.2.2.2.2.2.2.2.2.1
+  rw [h0] at this
+  cases hc : c.entries with
+  | nil => exact hne hc
+  | cons e es => rw [hc] at this; simp at this
+
+theorem saveDefault_frame4 (c : Core) (k : Str) (v : V) : Frame4 c (saveDefault c k v) := by
+  have h := saveDefault_frame c k v
+  refine ⟨h.1, h.2.1, h.2.2.1, h.2.2.2.1, h.2.2.2.2.1, h.2.2.2.2.2.1, h.2.2.2.2.2.2.1, h.2.2.2.2.2.2.2.1, h.2.2.2.2.2.2.2.2.1,
+    h.2.2.2.2.2.2.2.2.2.1, h.2.2.2.2.2.2.2.2.2.2, ?_⟩
+  intro hi
+  unfold saveDefault
+  simp [hi]
+
+theorem putContext_frame4 (c : Core) (d : D) : Frame4 c (putContext c d) := by
+  unfold putContext
+  split
+  · rename_i hin
+    refine ⟨rfl, rfl, rfl, rfl, rfl, rfl, rfl, rfl, rfl, ?_, ?_, ?_⟩
+    · cases c.entries <;> simp [updHead]
+    · cases c.entries <;> simp [updHead]
+    · intro hi; rw [hi] at hin; cases hin
+  · exact Frame4.refl c
+
+theorem pop_frame4 (o : Ops) (s : MSt) (el : Str) : Frame4 s.c (pop o s el).c := by
+  unfold pop
+  split
+  · exact Frame4.refl _
+  · split
+    · exact Frame4.refl _
+    · simp only
+      split
+      · exact Frame4.refl _
+      · split
+        · exact Frame4.refl _
+        · split
+          · rename_i hin
+            refine ⟨rfl, rfl, rfl, rfl, rfl, rfl, rfl, rfl, rfl, ?_, ?_, ?_⟩
+            · cases s.c.entries <;> simp [updHead]
+            · cases s.c.entries <;> simp [updHead]
+            · intro hi; rw [hi] at hin; cases hin
+          · split
+            · exact ⟨rfl, rfl, rfl, rfl, rfl, rfl, rfl, rfl, rfl, rfl, rfl, fun _ => rfl⟩
+            · exact Frame4.refl _
+
+/-- `pop` leaves the stack alone or removes its top -/
+theorem pop_stack (o : Ops) (s : MSt) (el : Str) : (pop o s el).stack = s.stack ∨ ∃ top, s.stack = top :: (pop o s el).stack := by
+  unfold pop
+  split
+  · exact .inl rfl
+  · rename_i top rest hst
+    split
+    · exact .inl rfl
+    · simp only
+      split
+      · exact .inr ⟨top, hst⟩
+      · split
+        · exact .inr ⟨top, hst⟩
+        · split
+          · exact .inr ⟨top, hst⟩
+          · split
+            · exact .inr ⟨top, hst⟩
+            · exact .inr ⟨top, hst⟩
+
+theorem startLG_frame4 (o : Ops) (c : Core) (kind : Str) (a : List (Str × Str)) (c' : Core) (es : List Elem)
+    (h : startLG o c kind a = .ok (c', es)) : Frame4 c c' := by
+  unfold startLG at h
+  split at h
+  · unfold startLink at h
+    simp only at h
+    split at h
+    · injection h with h; injection h with h1 _; rw [← h1]
+      exact Frame4.trans (c := putContext _ _) (b := { c with isentrylink := _ }) (Frame4.refl c) (putContext_frame4 _ _)
+    · split at h
+      · injection h with h; injection h with h1 _; rw [← h1]
+        exact Frame4.trans (c := putContext _ _) (b := { c with isentrylink := _ }) (Frame4.refl c) (putContext_frame4 _ _)
+      · injection h with h; injection h with h1 _; rw [← h1]
+        exact Frame4.trans (c := putContext _ _) (b := { c with isentrylink := _ }) (Frame4.refl c) (putContext_frame4 _ _)
+  · split at h
+    · injection h with h; injection h with h1 _; rw [← h1]; exact Frame4.refl c
+    · cases h
+
+theorem popLink_frame4 (o : Ops) (s : MSt) :
+    Frame4 s.c (popLink o s).c ∧ ((popLink o s).stack = s.stack ∨ ∃ top, s.stack = top :: (popLink o s).stack) := by
+  unfold popLink
+  split
+  · exact ⟨Frame4.refl _, .inl rfl⟩
+  · rename_i top rest hst
+    split
+    · exact ⟨Frame4.refl _, .inl rfl⟩
+    · split
+      · exact ⟨Frame4.refl _, .inr ⟨top, hst⟩⟩
+      · simp only
+        split
+        · exact ⟨putContext_frame4 _ _, .inr ⟨top, hst⟩⟩
+        · split
+          · exact ⟨Frame4.refl _, .inr ⟨top, hst⟩⟩
+          · exact ⟨Frame4.refl _, .inr ⟨top, hst⟩⟩
+
+theorem endGuidCore_frame4 (o : Ops) (s : MSt) : Frame4 s.c (endGuidCore o s) := by
+  unfold endGuidCore
+  simp only
+  split
+  · exact (pop_frame4 o s _).trans ((saveDefault_frame4 _ _ _).trans (saveDefault_frame4 _ _ _))
+  · exact (pop_frame4 o s _).trans (saveDefault_frame4 _ _ _)
+
+theorem endFinish_frame (o : Ops) (c : Core) :
+    (endFinish o c).entries = c.entries ∧ (endFinish o c).inentry = c.inentry ∧ (endFinish o c).feed = c.feed ∧ (endFinish o c).version = c.version ∧
+    (endFinish o c).nsMap = c.nsMap ∧ (endFinish o c).nsInUse = c.nsInUse ∧ (endFinish o c).infeed = c.infeed ∧
+    (endFinish o c).incontent = c.incontent ∧ (endFinish o c).cp = c.cp := ⟨rfl, rfl, rfl, rfl, rfl, rfl, rfl, rfl, rfl⟩
+
+/-- inversion of the stage-4 end handlers: the result is `endFinish` of a core in the frame of the old one, over the old stack or its tail -/
+theorem endLG_ok (o : Ops) (s s' : MSt) (kind : Str) (h : endLG o s kind = .ok s') :
+    ∃ c1 st, Frame4 s.c c1 ∧ s' = ⟨endFinish o c1, st⟩ ∧ (st = s.stack ∨ ∃ top, s.stack = top :: st) := by
+  unfold endLG at h
+  split at h
+  · injection h with h
+    obtain ⟨hf, hst⟩ := popLink_frame4 o s
+    exact ⟨{ (popLink o s).c with isentrylink := false }, (popLink o s).stack, hf, h.symm, hst⟩
+  · split at h
+    · injection h with h
+      exact ⟨endGuidCore o s, (pop o s (S "id")).stack, endGuidCore_frame4 o s, h.symm, pop_stack o s _⟩
+    · cases h
+
 end FeedVerif.Mixin
